@@ -4,7 +4,7 @@ prop=$1; patch=$2; tier=${3:-quick}
 cd /repo || exit 2
 if ! git diff --quiet; then echo "repo dirty"; exit 2; fi
 git apply "$patch" || { echo "patch does not apply"; exit 2; }
-export GOFLAGS=-mod=mod GOPROXY=off
+export GOFLAGS=-mod=mod GOPROXY=off GOVC_EVIDENCE_DIR=$(mktemp -d /tmp/govc-ev-XXXX)
 if ! go build ./... 2>/tmp/mut_build.log; then echo "MUTANT DOES NOT BUILD"; cat /tmp/mut_build.log | head; git checkout -- .; exit 2; fi
 timeout 900 /verif/bin/govc check -property "$prop" -tier "$tier" > /tmp/mut_check.log 2>&1; rc=$?
 grep -E "^VIOLATION|^UNDECIDED|^KNOWN|failed obligation|^govc:" /tmp/mut_check.log | cut -c1-220 | head -12
